@@ -23,7 +23,8 @@ TRUSTED = ["model Order.lean hand-written; tied to the real TemplateFileSorter/P
 
 ATOM_TEXT = {"name": "%Name()", "base": "%Base()", "ext": "%Ext()", "dir": "%Dir()", "size": "%Size()",
              "negsize": "-%Size()", "lower": "%Lower(){%Name()}", "lenname": "len(%Name())"}
-BASES = ["a", "b", "A", "10", "9", "é", "x'y", 'q"', "back\\s", "Zz", "a b", "%t", "{c}"]
+BASES = ["a", "b", "A", "10", "9", "é", "x'y", 'q"', "back\\s", "Zz", "a b", "%t", "{c}",
+         "e\u0301clair", "\u00e9clair", "fig", "zebra", "n\u0303", "\u00f1", "o", "p"]      # decomposed and composed forms
 EXTS = ["", ".txt", ".TXT", ".a", ".10", ".9"]
 
 
@@ -39,7 +40,8 @@ def gen_sorter(rng, n, tier):
         k = rng.randint(1, 9)
         files = {}
         for _ in range(k):
-            d = rng.choice(["", "", "s/", "s/t/", "u/", "é d/"])
+            # sibling directory names that extend another one with a character sorting before '/'
+            d = rng.choice(["", "", "s/", "s/t/", "u/", "é d/", "s-old/", "s.d/", "s /", "s/t-x/", "s/t/u/", "s!/"])
             name = rng.choice(BASES) + rng.choice(EXTS) if rng.random() < 0.8 else gen.gen_name(rng, allow_newline=False)
             files[d + name] = rng.choice([0, 1, 2, 9, 10, 100])
         order = list(files.items())
